@@ -55,7 +55,8 @@ PROPS = {
     "C04": {
         "engines": ["K", "S"],
         "bounds": ["S: every feasible path of every suite (c14, c01, c01d, c02, c02d, c02e, c03, c07, c08, c09, c16) runs under catch_unwind: a panic of the code under test is a counterexample; each path terminates under a decision budget",
-                   "K: every kernel harness of C01/C02/C07/C11/C15/C19 carries Kani's panic / overflow / unwrap / index checks; c04_* harnesses use full-width fields (i64 day offsets)"],
+                   "K: every kernel harness of C01/C02/C07/C11/C15/C19 carries Kani's panic / overflow / unwrap / index checks; c04_* harnesses use full-width fields (i64 day offsets; year ranges with any step 1..=65535 and any bounds 1900..=9999 on any chrono date)",
+                   "S c16: interval-size bounds within 3 days of TimeDelta::MAX, and zero / negative bounds (-3 days..=0, symbolic seconds): range iteration terminates and makes progress"],
         "outside_bounds": ["parse(&str) itself (pest): e.g. the '10:00-12:00/30' panic inside build_timespan is not reachable by this family here", "Display / fmt", "contexts built by from_coords (geodata)",
                            "dates outside the windows of the suites (K kernels: all chrono dates only in the c04_* / c08_* harnesses)"],
         "stubs": [],
@@ -117,11 +118,13 @@ PROPS = {
     },
     "C15": {
         "engines": ["K"],
-        "bounds": ["CompactMonth: every operation for all 2^31 day sets and all days (iteration: sets of <= 4 days)", "CompactYear: every operation for all 12 x 31-bit day sets and all (month, day); serialize -> deserialize identity and exact byte consumption"],
-        "outside_bounds": ["CompactCalendar (VecDeque of years): the year-window growth could not be decided by CBMC (out of memory / > 45 min for 3 insertions with concrete years), see DESIGN.md"],
-        "stubs": [],
-        "assumptions": [],
-        "explanation": "Bit-set model comparison over the complete input space of the month / year layers.",
+        "bounds": ["CompactMonth: every operation for all 2^31 day sets and all days (iteration: sets of <= 4 days)", "CompactYear: every operation for all 12 x 31-bit day sets and all (month, day); serialize -> deserialize identity and exact byte consumption",
+                   "CompactCalendar, by induction over insertion histories: every reachable state of 1, 2 or 3 stored years (any first year -261600..=261999, every set of existing dates per stored year, first and last year non-empty, ring buffer wrapping at any position): contains and count at any date of chrono's range; first_after against its set-theoretic specification (quick: 3 stored years for queries from the first stored year on, 2 stored years for queries before the window; thorough: 1, 2, 3 stored years for both); one insert of any date up to 3 years before / after the window gives exactly the predicted state and re-establishes the invariant (window = [min year, max year]); derived equality = set equality (windows of 1-2 years, first years <= 2 apart)",
+                   "thorough only: insert into the empty calendar (base case), ordered iteration (calendars of <= 3 members), calendar serialize -> deserialize identity and byte consumption (2 stored years)"],
+        "outside_bounds": ["calendars whose window holds more than 3 stored years before the operation (6 after an insert), inserts more than 3 years outside the window", "std's VecDeque itself (replaced by a bounded model of its documented contract for the calendar layer; changes that depend on the physical layout beyond as_slices are not visible)", "Hash / Ord / Debug of calendars"],
+        "stubs": ["calendar layer only: compact-calendar/src/lib.rs (copied verbatim from /repo at check time) is compiled with `std::collections::VecDeque` replaced by kani/src/model_deque.rs (array-backed, capacity 6, references at concrete offsets, as_slices split chosen by the harness); counterexamples are replayed on the real std VecDeque"],
+        "assumptions": ["the bounded deque model implements std's documented VecDeque contract for the methods compact-calendar uses (get, get_mut, push_front, push_back, front_mut, back_mut, len, is_empty, iter, FromIterator, Eq/Ord/Hash, as_slices)"],
+        "explanation": "Bit-set model comparison over the complete input space of the month / year layers; set-of-dates model for the calendar layer by one inductive step from every reachable state of <= 3 stored years.",
     },
     "C16": {
         "engines": ["S"],
